@@ -407,6 +407,30 @@ func init() {
 				rec(l, 0)
 			}
 		}, c17Check)
+	// grammar-generated expressions with key collisions across nesting depths ("later assignments to the
+	// same key win" must hold in SOURCE order whatever the depth the key is written at)
+	definePart("C17", "c17/colliding-assignments", "qt", "every list of <= 3 (thorough 4) assignments from 12 forms that all write into the key space {a, a.b, a.b.c, a.type, a.b.type}, as the body of T{...}, two spacings",
+		func(tier string, yield func(string)) {
+			forms := []string{`a=1`, `a="s"`, `a=U{}`, `a=U{b=2}`, `a=U{b=V{c=3}}`, `a=U{b=2,b=4}`, `a.b=5`, `a.b=W{c=6}`, `a.b.c=7`, `a.type=X`, `a.b.type=Y`, `a[0].b=8`}
+			n := 3
+			if tier == "thorough" {
+				n = 4
+			}
+			var rec func(cur []string)
+			rec = func(cur []string) {
+				if len(cur) > 0 {
+					yield("T{" + strings.Join(cur, ",") + "}")
+					yield("T {\n " + strings.Join(cur, " ,\n ") + ",\n}")
+				}
+				if len(cur) == n {
+					return
+				}
+				for _, f := range forms {
+					rec(append(cur, f))
+				}
+			}
+			rec(nil)
+		}, c17Check)
 	alphabet := []string{"A", "a", "_", "0", "9", "x", "e", "E", "+", "-", ".", `"`, `\`, "/", "n", "u", "{", "}", "=", ",", "[", "]", " ", "\n", "é", "\xff"}
 	definePart("C17", "c17/byte-strings", "qt", "every string of length <= 4 (thorough 5) over a 26-symbol alphabet, bare and as the value in T{k=...}",
 		func(tier string, yield func(string)) {
